@@ -66,6 +66,40 @@ class BFSResult:
         self.histories = []
 
 
+def bfs_snap(build, events, apply_event, state_key, check, depth: int, snapshot, restore, max_states: int | None = None) -> BFSResult:
+    """Same search as ``bfs`` but a state is re-entered by restoring a snapshot of every mutable
+    array/scalar of the system into ONE long-lived object (used where constructing the real objects
+    is expensive: numba closures). ``snapshot(obj)`` must capture the whole mutable state."""
+    res = BFSResult()
+    obj = build()
+    seen = {state_key(obj)}
+    frontier = collections.deque([([], snapshot(obj))])
+    res.states = 1
+    while frontier:
+        hist, snap = frontier.popleft()
+        if len(hist) >= depth:
+            continue
+        for ev in events:
+            restore(obj, snap)
+            obs = apply_event(obj, ev)
+            res.transitions += 1
+            fl = check(obj, hist, ev, obs)
+            if fl:
+                res.fails.extend(fl)
+            k = state_key(obj)
+            if k not in seen:
+                seen.add(k)
+                res.states += 1
+                frontier.append((hist + [ev], snapshot(obj)))
+                if len(res.histories) < 4:
+                    res.histories.append(hist + [ev])
+                if max_states is not None and res.states >= max_states:
+                    res.depth_completed = len(hist)
+                    return res
+    res.depth_completed = depth
+    return res
+
+
 def bfs(build, events, apply_event, state_key, check, depth: int, max_states: int | None = None) -> BFSResult:
     """Breadth-first search over event histories on real objects.
 
